@@ -287,7 +287,7 @@ def v7(ctx):
                           where_of(b, c.bb))
         ctx.floor("table writes in " + C.short(b.id), n, 2)
         # substitution values
-        st = [s for bi, si, s in b.statements() if s["k"] == "assign" and "*" in s["lhs"]["p"] and any(role_mentions_call(b.role_of_rvalue(s["rv"]), n_) for n_ in mr["appid_find_names"])]
+        st = [s for sub in b.all_bodies() for bi, si, s in sub.statements() if s["k"] == "assign" and "*" in s["lhs"]["p"] and any(role_mentions_call(sub.role_of_rvalue(s["rv"]), n_) for n_ in mr["appid_find_names"])]
         ctx.check(bool(st), "subst-values-canonical:" + C.fkey(b), "every substitution value is re-canonicalised (state_appid_find)",
                   "%s no longer re-canonicalises the substitution values after a slot union" % C.short(b.id), where_of(b))
         lp = [l for l in C.iterator_loops(b)]
@@ -342,6 +342,9 @@ def v8(ctx):
                   "union_slot links two slots and can return without re-keying the state", where_of(b, c.bb))
         # pattern slots are never replaced
         allow_true = [e for e, cond in C.all_cond_edges(b) if cond[0] == "true" and isinstance(strip_role(cond[1]), tuple) and strip_role(cond[1])[0] == "call" and strip_role(cond[1])[1] in multipat_roles(crate)["allows_names"]]
+        # the test written out: `!st.pattern_slots.contains(&x)`
+        allow_true += [e for e, cond in C.all_cond_edges(b) if cond[0] == "false" and isinstance(strip_role(cond[1]), tuple) and strip_role(cond[1])[0] == "call" and strip_role(cond[1])[1] == "contains"
+                       and role_mentions_field(strip_role(cond[1]), "pattern_slots")]
         ok = bool(allow_true) and b.must_pass([0], {c.bb}, allow_true)
         ctx.check(ok, "pattern-slots-stay", "a slot is replaced only if allows_directed_union (it is not a pattern slot)", "union_slot can replace a pattern slot", where_of(b, c.bb))
 
@@ -386,3 +389,46 @@ def v9(ctx):
 
 
 RULES.append(v9)
+
+
+@rule("V10", doc="multi-pattern node match: only nodes of the pattern node's name-free shape are accepted; the pattern's own slots are registered as pattern slots before they are unified with e-graph slots")
+def v10(ctx):
+    crate = ctx.lib()
+    mr = multipat_roles(crate)
+    ws = [bid for bid in crate.field_writers(MS, "pattern_slots") if bid in crate.bodies]
+    roots = sorted({crate.root_of(crate.bodies[x]).id for x in ws})
+    C.need("node matcher of the multi-pattern search (registers pattern slots)", roots)
+    n = 0
+    for rid in roots:
+        b = mir.inline_view(crate, crate.bodies[rid])
+        regs = [c for c in b.calls if c.callee and c.callee.name == "insert" and c.args and role_mentions_field(b.role_of_operand(c.args[0]), "pattern_slots") and not b.blocks[c.bb]["cleanup"]]
+        if not regs:
+            continue
+        n += 1
+        # (a) shape gate
+        gate = [e for e, cond in C.all_cond_edges(b) if cond[0] == "eq" and len(cond) == 3 and role_mentions_call(cond[1], "weak_shape") and role_mentions_call(cond[2], "weak_shape")
+                and role_mentions_call(cond[1], "nullify_app_ids") and role_mentions_call(cond[2], "nullify_app_ids")]
+        sides_ok = False
+        for e, cond in C.all_cond_edges(b):
+            if cond[0] == "eq" and len(cond) == 3 and role_mentions_call(cond[1], "weak_shape") and role_mentions_call(cond[2], "weak_shape"):
+                ps = [{x[1] for x in role_walk(s_) if isinstance(x, tuple) and x[0] == "param"} for s_ in (cond[1], cond[2])]
+                sides_ok = sides_ok or (ps[0] != ps[1] and all(ps))
+        for c in regs:
+            ok = bool(gate) and b.dominated_by(c.bb, gate) and sides_ok
+            ctx.check(ok, "shape-equality-gate:" + C.fkey(crate.bodies[rid]), "slots of an e-node are related to the pattern node's only after weak_shape(nullified pattern node) == weak_shape(nullified e-node)",
+                      "%s relates the slots of an e-node to the pattern node's without their name-free shapes having been compared: a node with another operator / another binding structure is accepted as a match" % C.short(rid),
+                      where_of(b, c.bb))
+        # (b) registration before unification, same slot
+        unions = [c for c in b.calls if c.callee and c.callee.target in crate.bodies and crate.bodies[c.callee.target].local_ty(0).startswith("std::option::Option<rewrite::multipat::MultiState")
+                  and c.callee.target != rid and not b.blocks[c.bb]["cleanup"]]
+        ctx.floor("slot unifications in " + C.short(rid), len(unions), 1)
+        for u in unions:
+            first = strip_role(b.role_of_operand(u.args[0]))
+            ok = any(strip_role(b.role_of_operand(c.args[1])) == first and b.dominated_by(u.bb, [c.bb]) for c in regs if len(c.args) > 1)
+            ctx.check(ok, "pattern-slot-registered:" + C.fkey(crate.bodies[rid]), "the pattern-side slot is put into pattern_slots before it is unified with the e-graph slot",
+                      "%s unifies a pattern slot with an e-graph slot without registering it in pattern_slots first: the directed slot union may then replace the pattern's own slot by an e-graph name, and the substitution handed to the rule speaks about slots the pattern does not have" % C.short(rid),
+                      where_of(b, u.bb))
+    ctx.floor("multi-pattern node matchers", n, 1)
+
+
+RULES.append(v10)
